@@ -676,7 +676,7 @@ func methodBodyBlock2(method Method, params *signature.TupleType,
 			if err != nil {
 				return nil, fmt.Errorf("proxy: %s", err)
 			}
-			ret = Make`+name+`(p.session, proxy)`))
+			ret = Make`+signature.CleanName(name)+`(p.session, proxy)`))
 		}
 		writing = append(writing, jen.Id(`return ret, nil`))
 	}
